@@ -343,7 +343,9 @@ public:
 	return std::nullopt;
       SectorAddress addr;
       const auto sectors_per_side = geom_.cylinders * geom_.sectors;
-      addr.head = lba / sectors_per_side;
+      // geom_ describes just this one side, whose sectors carry the
+      // side number in their ID fields.
+      addr.head = static_cast<unsigned char>(side_ + lba / sectors_per_side);
       lba = lba % sectors_per_side;
       addr.cylinder = lba / geom_.sectors;
       addr.record = lba % geom_.sectors;
